@@ -29,100 +29,130 @@ Section W3C.
         f <- gather_filter cfg cx id ;;
         let m := flat_map (fun '(k, v) => match v with
                                           | VBool _ => []
-                                          | _ => [((if f_w3c_norm_keys cfg then cv k else k), Some (value_to_string v))] end)
+                                          | _ => [(tagkey cfg k, Some (value_to_string v))] end)
                           (wc_subject c) in
         guard (eval cfg (rev m) f q)
     end.
-  (* check_credential_non_revoked_interval *)
-  Definition cred_interval (R : request) (cx : ctx) (id : identifier) (sp : subproof) (local : option interval) : res unit :=
+  (* check_credential_non_revoked_interval: Ok true = an interval applies to this credential *)
+  Definition cred_interval (R : request) (cx : ctx) (id : identifier) (local : option interval) : res bool :=
     if f_gate_on_creddef cfg then
       match assoc (id_creddef id) (cx_creddefs cx) with
       | None => RErr
-      | Some cd => interval_check cfg R cx cd local id sp
+      | Some cd => interval_check cfg R cx cd local id
       end
     else
       match id_revreg id with
-      | None => ROk tt
+      | None => ROk false
       | Some rid =>
           match requested_interval (Some rid) local (rq_nr R) (cx_override cx) with
-          | None => ROk tt
-          | Some iv => t <- of_opt (id_ts id) ;; guard (is_valid iv t)
+          | None => ROk false
+          | Some iv => t <- of_opt (id_ts id) ;; _ <- guard (is_valid iv t) ;; ROk false
           end
       end.
-  Definition cred_conditions (R : request) (cx : ctx) (c : w3c_cred) (id : identifier) (sp : subproof) (q : option query) (local : option interval) : bool :=
-    is_ok (_ <- cred_restrictions cx c id q ;; cred_interval R cx id sp local).
+  (* check_credential_conditions: None = not met; Some b = met, b = non-revocation proof required *)
+  Definition cred_conditions (R : request) (cx : ctx) (c : w3c_cred) (id : identifier) (q : option query) (local : option interval) : option bool :=
+    match (_ <- cred_restrictions cx c id q ;; cred_interval R cx id local) with
+    | ROk b => Some b
+    | _ => None
+    end.
 
   Notation wcase := (w3c_cred * (identifier * subproof))%type.
+  Definition need (i : Z) (b : bool) : list Z := if b then [i] else [].
 
-  (* check_requested_attribute: first loop (revealed), second loop (schema holds the attribute) *)
-  Fixpoint find_revealed (R : request) (cx : ctx) (name : string) (q : option query) (nr : option interval) (cs : list wcase) : bool :=
+  (* check_requested_attribute: first loop (revealed), second loop (schema holds the attribute);
+     the result lists the position of the serving credential if it must carry a non-revocation proof *)
+  Fixpoint find_revealed (R : request) (cx : ctx) (name : string) (q : option query) (nr : option interval) (i : Z) (cs : list wcase) : option (list Z) :=
     match cs with
-    | [] => false
+    | [] => None
     | (c, (id, sp)) :: r =>
         match get_attribute c name with
         | Some (k, v) =>
-            if is_ok (verify_value k sp (encode (value_to_string v))) && cred_conditions R cx c id sp q nr then true
-            else find_revealed R cx name q nr r
-        | None => find_revealed R cx name q nr r
+            if is_ok (verify_value k sp (encode (value_to_string v))) then
+              match cred_conditions R cx c id q nr with
+              | Some b => Some (need i b)
+              | None => find_revealed R cx name q nr (i + 1) r
+              end
+            else find_revealed R cx name q nr (i + 1) r
+        | None => find_revealed R cx name q nr (i + 1) r
         end
     end.
-  Fixpoint find_unrevealed (R : request) (cx : ctx) (name : string) (q : option query) (nr : option interval) (cs : list wcase) : res unit :=
+  Fixpoint find_unrevealed (R : request) (cx : ctx) (name : string) (q : option query) (nr : option interval) (i : Z) (cs : list wcase) : res (list Z) :=
     match cs with
     | [] => RErr
     | (c, (id, sp)) :: r =>
         sc <- of_opt (assoc (id_schema id) (cx_schemas cx)) ;;            (* a missing schema aborts the whole check *)
-        if existsb (fun a => String.eqb (cv a) (cv name)) (sc_attrs sc)
-           && (negb (f_w3c_strict_subject cfg) || negb (mem (cv name) (keys (sp_revealed sp))))
-           && cred_conditions R cx c id sp q nr then ROk tt
-        else find_unrevealed R cx name q nr r
+        if existsb (fun a => String.eqb (cv a) (cv name)) (sc_attrs sc) then
+          match cred_conditions R cx c id q nr with
+          | Some b => ROk (need i b)
+          | None => find_unrevealed R cx name q nr (i + 1) r
+          end
+        else find_unrevealed R cx name q nr (i + 1) r
     end.
-  Definition check_attribute (R : request) (cx : ctx) (cs : list wcase) (name : string) (q : option query) (nr : option interval) : res unit :=
-    if find_revealed R cx name q nr cs then ROk tt else find_unrevealed R cx name q nr cs.
+  Definition check_attribute (R : request) (cx : ctx) (cs : list wcase) (name : string) (q : option query) (nr : option interval) : res (list Z) :=
+    match find_revealed R cx name q nr 0 cs with
+    | Some l => ROk l
+    | None => find_unrevealed R cx name q nr 0 cs
+    end.
 
-  Fixpoint check_predicate (R : request) (cx : ctx) (pi : pred_info) (cs : list wcase) : res unit :=
+  Fixpoint check_predicate (R : request) (cx : ctx) (pi : pred_info) (i : Z) (cs : list wcase) : res (list Z) :=
     match cs with
     | [] => RErr
     | (c, (id, sp)) :: r =>
         match get_predicate c (pi_name pi) with
         | Some k =>
-            if existsb (fun p => pred_eqb p ((if f_w3c_pred_cv cfg then cv k else k), pi_type pi, pi_value pi)) (sp_preds sp)
-               && cred_conditions R cx c id sp (pi_restr pi) (pi_nr pi) then ROk tt
-            else check_predicate R cx pi r
-        | None => check_predicate R cx pi r
+            if existsb (fun p => pred_eqb p ((if f_w3c_pred_cv cfg then cv k else k), pi_type pi, pi_value pi)) (sp_preds sp) then
+              match cred_conditions R cx c id (pi_restr pi) (pi_nr pi) with
+              | Some b => ROk (need i b)
+              | None => check_predicate R cx pi (i + 1) r
+              end
+            else check_predicate R cx pi (i + 1) r
+        | None => check_predicate R cx pi (i + 1) r
         end
     end.
 
-  (* fix of C03: every String/Number subject entry is a value the sub-proof reveals, and every
-     revealed value of the sub-proof is shown in the subject *)
+  (* verify_credential_subject (fix of C03): every String/Number subject entry is the value the
+     sub-proof reveals, and every revealed value of the sub-proof is shown in the subject *)
   Definition subject_matches (c : w3c_cred) (sp : subproof) : bool :=
     forallb (fun '(k, v) => match v with
                             | VBool _ => true
-                            | _ => match assoc (cv k) (sp_revealed sp) with
-                                   | Some e => String.eqb e (encode (value_to_string v))
-                                   | None => false end
+                            | _ => is_ok (verify_value k sp (encode (value_to_string v)))
                             end) (wc_subject c)
     && forallb (fun '(n, _) => match get_attribute c n with Some _ => true | None => false end) (sp_revealed sp).
 
-  Definition check_request_data (R : request) (cx : ctx) (cs : list wcase) : res unit :=
-    _ <- iter (fun '(_, ai) =>
-          _ <- match ai_name ai with Some n => check_attribute R cx cs n (ai_restr ai) (ai_nr ai) | None => ROk tt end ;;
-          match ai_names ai with Some ns => iter (fun n => check_attribute R cx cs n (ai_restr ai) (ai_nr ai)) ns | None => ROk tt end)
+  Definition check_request_data (R : request) (cx : ctx) (cs : list wcase) : res (list Z) :=
+    na <- mapR (fun '(_, ai) =>
+          l1 <- match ai_name ai with Some n => check_attribute R cx cs n (ai_restr ai) (ai_nr ai) | None => ROk [] end ;;
+          l2 <- match ai_names ai with
+                | Some ns => ls <- mapR (fun n => check_attribute R cx cs n (ai_restr ai) (ai_nr ai)) ns ;; ROk (List.concat ls)
+                | None => ROk [] end ;;
+          ROk (l1 ++ l2))
           (rq_attrs R) ;;
-    _ <- iter (fun '(_, pi) => check_predicate R cx pi cs) (rq_preds R) ;;
-    iter (fun '(c, (id, sp)) =>
+    np <- mapR (fun '(_, pi) => check_predicate R cx pi 0 cs) (rq_preds R) ;;
+    _ <- iter (fun '(c, (id, sp)) =>
           cd <- of_opt (assoc (id_creddef id) (cx_creddefs cx)) ;;
           _ <- guard (String.eqb (cd_issuer cd) (wc_issuer c)) ;;
-          _ <- guard (String.eqb (wc_method c) (id_creddef id)) ;;
-          guard (negb (f_w3c_strict_subject cfg) || subject_matches c sp)) cs.
+          guard (String.eqb (wc_method c) (id_creddef id))) cs ;;
+    ROk (List.concat na ++ List.concat np).
+
+  Fixpoint add_all (cx : ctx) (regmap : option (list (string * Z * N))) (needs : list Z) (i : Z) (cs : list wcase) : res (list cl_sub) :=
+    match cs with
+    | [] => ROk []
+    | (_, (id, sp)) :: r =>
+        _ <- require_nrp cfg (existsb (Z.eqb i) needs) sp ;;
+        x <- add_sub_proof cfg cx regmap sp id ;;
+        xs <- add_all cx regmap needs (i + 1) r ;;
+        ROk (x :: xs)
+    end.
 
   Definition verify_w3c (R : request) (P : w3c_pres) (cx : ctx) : outcome :=
     let r :=
       _ <- guard (wp_shape_ok P) ;;
       cs <- mapR (fun c => pv <- of_opt (wc_pv c) ;; ROk (c, pv)) (wp_creds P) ;;
-      _ <- check_request_data R cx cs ;;
+      needs <- check_request_data R cx cs ;;
+      _ <- guard (negb (f_w3c_strict_subject cfg) || forallb (fun '(c, (_, sp)) => subject_matches c sp) cs) ;;
       a <- of_opt (wp_agg P) ;;
       regmap <- build_regmap cx ;;
-      subs <- mapR (fun '(_, (id, sp)) => add_sub_proof cfg cx regmap sp id) cs ;;
+      subs <- add_all cx regmap needs 0 cs ;;
       ROk (subs, a) in
     match r with
     | RErr => Err | RPanic => Panic
